@@ -71,12 +71,23 @@ Close(proto, p) ==
   /\ out' = {} /\ last' = [a |-> "Close", proto |-> proto, port |-> p]
   /\ UNCHANGED <<kind, fam>>
 
+\* AllocateConn: the outgoing connection of an RFC 6062 Connect leaves from the relayed address a listener holds (the
+\* two sockets share the port).  It binds nothing new in this book-keeping, and what was handed out before is what it
+\* was: the allocation's advertised relayed address is not touched by connecting from it.  (IPv4 only: the harness
+\* has a second local address there to play the relay address.)
+Conn(p) ==
+  /\ fam = 4 /\ <<"tcp", p>> \in bound
+  /\ out' = {[k |-> "conn", ok |-> TRUE, adv |-> IF kind = "none" THEN "local" ELSE "relay"]}
+  /\ last' = [a |-> "Conn", proto |-> "tcp", port |-> p]
+  /\ UNCHANGED <<kind, fam, bound>>
+
 AllDraws == [1..MaxRetries -> Classes]
 Next ==
   \/ \E proto \in Protos, d \in AllDraws : AllocRange(proto, d)
   \/ \E proto \in Protos, p \in ReqPorts : AllocReq(proto, p)
   \/ \E proto \in Protos : AllocAny(proto)
   \/ \E proto \in Protos, p \in ReqPorts \cup {-1} \cup MinPort..MaxPort : Close(proto, p)
+  \/ \E p \in ReqPorts \cup {-1} \cup MinPort..MaxPort : Conn(p)
 Spec == Init /\ [][Next]_vars
 View == <<kind, fam, bound>>
 
